@@ -21,7 +21,7 @@ META = {
     "outside": "damage inside the 3 header bytes (excluded by the property); more frames than the bound; that each damage class yields a non-zero CRC (C08)",
     "assumptions": ["'damaged' ranges over every payload/CRC content the CRC rejects: a superset of the property's damage classes"],
 }
-WALL_BUDGET = {"quick": 480, "thorough": 3000}
+WALL_BUDGET = {"quick": 900, "thorough": 3000}
 
 
 def jobs(tier, seed):
